@@ -271,6 +271,8 @@ MUTANTS = [
     ("std-zero-path-returns-the-scaled-cotangent-itself", {"C05": "A3.reduce", "C01": "A3.reduce"}, [(NV, "        if num_reps <= 1:\n            return g_repeated * 0.0", "        if num_reps <= 1:\n            if axis is None:\n                return g * 0.0\n            return (g if keepdims else anp.expand_dims(g, axis)) * 0.0")]),
     ("matmul-adjoint-skips-zero-cotangents", {"C08": "A5.cut", "C14": "A5.cut", "C07": "A5.lin"}, [(NV, "def matmul_adjoint_0(B, G, A_meta, B_ndim):\n    if anp.ndim(G) == 0:  # A_ndim == B_ndim == 1", "def matmul_adjoint_0(B, G, A_meta, B_ndim):\n    if not anp.any(G):\n        return onp.zeros(A_meta[0], dtype=A_meta[2])\n    if anp.ndim(G) == 0:  # A_ndim == B_ndim == 1")]),
     ("defvjp-single-rule-dispatcher-ignores-argnums", {"C17": "A13.align", "C03": "A13.align"}, [(CO, "    def vjp_argnums(argnums, ans, args, kwargs):\n        L = len(argnums)", "    if len(vjps_dict) == 1:\n        (vjpfun,) = vjps_dict.values()\n\n        def unary_vjp_argnums(argnums, ans, args, kwargs):\n            if len(argnums) != 1:\n                raise NotImplementedError(\"VJP wrt argnums {} not defined\".format(argnums))\n            vjp = vjpfun(ans, *args, **kwargs)\n            return lambda g: (vjp(g),)\n\n        defvjp_argnums(fun, unary_vjp_argnums)\n        return\n\n    def vjp_argnums(argnums, ans, args, kwargs):\n        L = len(argnums)")]),
+    ("solve-gradient-not-reduced-to-its-argument", {"C05": "A3.vjp", "C01": "A3.vjp"}, [(LA, "        return lambda g: unbroadcast(match_complex(b, solve(T(a), g)), anp.metadata(b))", "        return lambda g: match_complex(b, solve(T(a), g))")]),
+    ("solve-gradient-reduced-to-the-other-argument", {"C05": "A3.vjp"}, [(LA, "        return lambda g: unbroadcast(match_complex(b, solve(T(a), g)), anp.metadata(b))", "        return lambda g: unbroadcast(match_complex(b, solve(T(a), g)), anp.metadata(a))")]),
 ]
 
 BENIGN = [
@@ -358,6 +360,7 @@ BENIGN = [
     ("mean-where-count-on-the-broadcast-mask", [(NV, "def grad_np_mean(ans, x, axis=None, keepdims=False):\n    shape, dtype = anp.shape(x), anp.result_type(x)\n\n    def vjp(g):\n        g_repeated, num_reps = repeat_to_match_shape(g, shape, dtype, axis, keepdims)\n        return g_repeated / num_reps", "def grad_np_mean(ans, x, axis=None, keepdims=False, where=True):\n    shape, dtype = anp.shape(x), anp.result_type(x)\n\n    def vjp(g):\n        g_repeated, num_reps = repeat_to_match_shape(g, shape, dtype, axis, keepdims)\n        if where is True:\n            return g_repeated / num_reps\n        return g_repeated * where / onp.sum(onp.broadcast_to(where, shape), axis=axis, keepdims=True)")]),
     ("find-top-three-way-split", [(TR, "        if isbox(arg):\n            trace = arg._trace\n            if trace > top_trace:\n                top_boxes = [(argnum, arg)]\n                top_trace = trace\n                top_node_type = type(arg._node)\n            elif trace == top_trace:\n                top_boxes.append((argnum, arg))", "        if isbox(arg):\n            trace = arg._trace\n            if trace < top_trace:\n                continue\n            if trace == top_trace:\n                top_boxes.append((argnum, arg))\n            else:\n                top_boxes = [(argnum, arg)]\n                top_trace = trace\n                top_node_type = type(arg._node)")]),
     ("sum-jvp-options-merged-into-one-dict", [(NJ, "    return anp.sum(g, axis=axis, dtype=dtype, keepdims=keepdims, **kwargs)", "    options = dict(kwargs, axis=axis, dtype=dtype, keepdims=keepdims)\n    return anp.sum(g, **options)")]),
+    ("solve-gradient-unbroadcast-via-local-metadata", [(LA, "    vector_rhs = anp.ndim(ans) == anp.ndim(a) - 1\n", "    vector_rhs = anp.ndim(ans) == anp.ndim(a) - 1\n    a_meta, b_meta = anp.metadata(a), anp.metadata(b)\n"), (LA, "        return lambda g: unbroadcast(match_complex(b, solve(T(a), g)), anp.metadata(b))", "        return lambda g: unbroadcast(match_complex(b, solve(T(a), g)), b_meta)")]),
 ]
 
 
